@@ -99,7 +99,9 @@ fn state_of(vs: &VerifState, win: Option<(i64, i64)>) -> Option<String> {
         .map(|kv| format!("{}:{}", kv.0, kv.1.to_bits()))
         .collect();
     let total: usize = vs.qvalues[..m - 1].iter().map(|r| r.len()).sum();
-    let ord = if total > ORD_CAP {
+    // (TFM_ORD_CAP: development override, to exercise the driver's tolerance path)
+    let cap = std::env::var("TFM_ORD_CAP").ok().and_then(|v| v.parse::<usize>().ok()).unwrap_or(ORD_CAP);
+    let ord = if total > cap {
         "-".to_string()
     } else {
         vs.qvalues[..m - 1]
@@ -601,6 +603,101 @@ fn gen_matrix_ext(rng: &mut Rng) -> Mat {
     }
 }
 
+/// DNA motif of width 6..7 with two informative positions and 4..5 nearly uninformative ones whose
+/// ranges (0.05 .. 0.099) are all below the first granularity 0.1: such a row is either constant at
+/// g = 0.1 (all cells in one bin, integer range 0) or straddles a multiple of 0.1 (integer range 1),
+/// and the INTEGER range is not monotone in the float range by which `TfmPvalue::new` sorts the rows.
+/// Half of the time the widest of these rows is bin-constant and all narrower ones straddle.  In the
+/// `tight` variant (2 in 3) the cells sit just below bin boundaries (fractional parts of x / 0.1 close to
+/// one), so that the rounding errors of a word use up nearly all of the (M+1) g slack of the property:
+/// an integer score that is one unit off per row is then visible in the reported range.
+/// Cells in units of 1e-4.
+fn gen_matrix_flat(rng: &mut Rng) -> Mat {
+    let tight = rng.chance(2, 3);
+    let nflat = if tight { 5 } else { 4 + rng.below(2) as usize };
+    let m = 2 + nflat;
+    let (bg, bgk) = gen_bg_n(rng, 4);
+    let mut mat = vec![vec![0f32; 5]; m];
+    // informative rows; in the tight variant their 16 sums are 0.6 apart (more than the total range of the
+    // nearly uninformative rows), so that the score distribution is a sequence of separated clusters
+    for (i, row) in mat.iter_mut().take(2).enumerate() {
+        if tight {
+            let step = if i == 0 { 24 } else { 6 };
+            let base = rng.range(-40, 5);
+            let mut order = [0i64, 1, 2, 3];
+            for j in (1..4).rev() {
+                let k = rng.below(j as u64 + 1) as usize;
+                order.swap(j, k);
+            }
+            for j in 0..4 {
+                row[j] = ((base + step * order[j]) * 1000 - 1 - rng.below(100) as i64) as f32 / 10000.0;
+            }
+        } else {
+            for j in 0..4 {
+                row[j] = rng.range(-30000, 15000) as f32 / 10000.0;
+            }
+        }
+        row[4] = f32::NEG_INFINITY;
+    }
+    // distinct ranges in 0.0500 .. 0.0990, widest first
+    let pattern = if tight { rng.chance(2, 3) } else { rng.chance(1, 2) };
+    let mut ranges: Vec<i64> = vec![];
+    // (a row can only be bin-constant when its range leaves room inside a bin: the widest range is at most
+    // 0.094 when it is to be the constant row)
+    let top = if pattern { rng.range(if tight { 900 } else { 600 }, 941) } else { 990 };
+    if pattern {
+        ranges.push(top);
+    }
+    while ranges.len() < nflat {
+        let r = if tight { rng.range(800, top) } else { rng.range(500, top) };
+        if !ranges.contains(&r) {
+            ranges.push(r);
+        }
+    }
+    ranges.sort_by(|a, b| b.cmp(a));
+    for (i, &r) in ranges.iter().enumerate() {
+        let inside = if pattern { i == 0 } else { rng.chance(1, 3) };
+        let base = rng.range(-20, 10) * 1000; // a multiple of 0.1
+        let lo = if inside && r <= 940 {
+            // all cells strictly inside the bin [base, base + 0.1)
+            if tight {
+                base + 1000 - r - 1 - rng.below(30.min(1000 - r - 1) as u64) as i64
+            } else {
+                base + 30 + rng.below((1000 - r - 50) as u64) as i64
+            }
+        } else if tight {
+            // just below the boundary: the low cells have a fractional part close to one
+            base - 1 - rng.below(30) as i64
+        } else {
+            // the bin boundary `base` lies strictly between the smallest and the largest cell
+            base - 30 - rng.below((r - 50) as u64) as i64
+        };
+        let mut cells = vec![lo, lo + r, 0, 0];
+        for c in cells.iter_mut().skip(2) {
+            *c = match rng.below(3) {
+                0 => lo,
+                1 => lo + r,
+                _ => lo + rng.below(r as u64 + 1) as i64,
+            };
+        }
+        // random column order
+        for j in (1..4).rev() {
+            let k = rng.below(j as u64 + 1) as usize;
+            cells.swap(j, k);
+        }
+        for j in 0..4 {
+            mat[2 + i][j] = cells[j] as f32 / 10000.0;
+        }
+        mat[2 + i][4] = f32::NEG_INFINITY;
+    }
+    // random row order (the permutation is computed by the code)
+    for i in (1..m).rev() {
+        let k = rng.below(i as u64 + 1) as usize;
+        mat.swap(i, k);
+    }
+    Mat { m, k: 5, mat, bg, mk: "flat", bgk, grid: 0 }
+}
+
 /// exact distribution of the score over the non-wildcard symbols, sorted by score:
 /// (score as f64 sum of the f32 cells, probability); equal scores are merged when the cells
 /// lie on a grid (convolution), otherwise all words are enumerated
@@ -663,7 +760,31 @@ fn gen(prop: &str, seed: u64, n: usize, tier: &str) {
     while id < n {
         // one matrix in eight: protein alphabet / wide motif (gen_matrix_ext)
         let ext = rng.chance(1, 8);
-        let mx = if ext { gen_matrix_ext(&mut rng) } else { gen_matrix(&mut rng) };
+        // one matrix in 15: nearly uninformative rows around the bins of the first granularity (`flat`)
+        let flat = !ext && rng.chance(1, 15);
+        let mut mx = if ext {
+            gen_matrix_ext(&mut rng)
+        } else if flat {
+            gen_matrix_flat(&mut rng)
+        } else {
+            gen_matrix(&mut rng)
+        };
+        // one plain matrix in 25: a few cells of huge magnitude (1e2 .. 1e20): `x / g` then exceeds the
+        // i64 range at some granularity (model panic sites 13/14/21/23/24/33/34; known finding
+        // i64-overflow) or loses its fractional bits early
+        let bigcell = !ext && !flat && mx.grid == 0 && rng.chance(1, 25);
+        if bigcell {
+            let ncells = 1 + rng.below(2) as usize;
+            for _ in 0..ncells {
+                let r = rng.below(mx.m as u64) as usize;
+                let c = rng.below((mx.k - 1) as u64) as usize;
+                let mag = 10f64.powf(2.0 + rng.below(1801) as f64 / 100.0);
+                let digits = 1.0 + rng.below(9000) as f64 / 1000.0;
+                let sign = if rng.chance(1, 3) { 1.0 } else { -1.0 };
+                mx.mat[r][c] = (sign * mag * digits / 10.0) as f32;
+            }
+            mx.mk = "bigcell";
+        }
         let words = enumerate(&mx);
         let lo = words[0].0;
         let hi = words[words.len() - 1].0;
@@ -702,6 +823,47 @@ fn gen(prop: &str, seed: u64, n: usize, tier: &str) {
             if ext {
                 // far below the minimum (whole window below the lowest integer score)
                 queries.push(("below", lo - 2.0 - rng.below(50) as f64));
+            }
+            // the edges of the two tail clauses at the first granularities: s = S(w) - (M+1) g (the word w
+            // still belongs to P(S >= s + (M+1) g)) and s = S(w) + (M+2) g (w just left P(S >= s - (M+2) g));
+            // for `flat` matrices w is one of the best words (high cell in most rows)
+            let ne = if flat { 7 } else { 2 };
+            for i in 0..ne {
+                let g = if flat || rng.chance(1, 2) { 0.1f64 } else { 0.01 };
+                let w = if flat {
+                    // the high cell in (most of) the nearly uninformative rows, any cell elsewhere
+                    let mut sum = 0.0f64;
+                    for row in mx.mat.iter() {
+                        let cells = &row[..mx.k - 1];
+                        let hi_c = cells.iter().cloned().fold(f32::NEG_INFINITY, f32::max);
+                        let lo_c = cells.iter().cloned().fold(f32::INFINITY, f32::min);
+                        sum += if hi_c - lo_c < 0.1 && rng.chance(7, 8) { hi_c } else { *rng.pick(cells) } as f64;
+                    }
+                    sum
+                } else {
+                    *rng.pick(&distinct)
+                };
+                let eps = *rng.pick(&[0.0f64, 1e-9, 1e-7]);
+                if i % 3 == 2 {
+                    queries.push(("edge5", w + (mx.m as f64 + 2.0) * g + eps));
+                } else {
+                    queries.push(("edge4", w - (mx.m as f64 + 1.0) * g - eps));
+                }
+            }
+            // a query of huge magnitude (what is left of pyglue's F25: `pvalue(1e30)`): score / g leaves the
+            // binary64-exact / i64 range although every cell is small
+            if rng.chance(1, 10) {
+                let mag = 10f64.powf(10.0 + rng.below(2801) as f64 / 100.0);
+                queries.push(("hugeq", if rng.chance(1, 2) { mag } else { -mag }));
+            }
+            // exactly attainable scores run to completion (19 calls of next()): on such a query the
+            // iteration typically only converges at granularity ~1e-16, when x / g has no fractional bits
+            // left; pvalue() is then called as well
+            if !ext && (bigcell || rng.chance(1, 6)) {
+                let nf = if bigcell { 4 } else { 1 };
+                for _ in 0..nf {
+                    queries.push(("attfull", *rng.pick(&distinct)));
+                }
             }
         } else {
             // exact tails (f64 approximations of them) at the distinct scores
@@ -769,6 +931,20 @@ fn gen(prop: &str, seed: u64, n: usize, tier: &str) {
                     }
                 }
             }
+            // p-values between the tails of two attainable scores that are closer than 1e-5 (the closest
+            // pairs): the refinement only converges at a granularity below their distance, and the returned
+            // threshold has to separate them
+            let mut close: Vec<(f64, usize)> = vec![];
+            for i in 0..stails.len().saturating_sub(1) {
+                let gap = stails[i].0 - stails[i + 1].0;
+                if gap > 0.0 && gap < 1e-5 && stails[i].1 > 0.0 && stails[i + 1].1 > stails[i].1 {
+                    close.push((gap, i));
+                }
+            }
+            close.sort_by(|a, b| a.0.partial_cmp(&b.0).unwrap());
+            for &(_, i) in close.iter().take(2) {
+                queries.push(("closepair", 0.5 * (stails[i].1 + stails[i + 1].1)));
+            }
             for p in [0.9f64, 0.99, 0.999999] {
                 if rng.chance(1, 4) {
                     queries.push(("near1", p));
@@ -802,7 +978,7 @@ fn gen(prop: &str, seed: u64, n: usize, tier: &str) {
                 qk == "between"
             };
             // mostly 3..maxsteps calls of next(); one case in ten runs deep (granularity down to 1e-10)
-            let deep = if qk == "attdeep" {
+            let deep = if qk == "attdeep" || qk == "closepair" {
                 1
             } else if ext {
                 2
@@ -811,7 +987,9 @@ fn gen(prop: &str, seed: u64, n: usize, tier: &str) {
             } else {
                 10
             };
-            let steps = if rng.chance(1, deep) {
+            let steps = if qk == "attfull" {
+                19
+            } else if rng.chance(1, deep) {
                 9 + rng.below(3) as usize
             } else {
                 3 + rng.below((maxsteps - 2) as u64) as usize
